@@ -80,6 +80,9 @@ SWAPV = [T(B + '_low_high'), T(B + '_swap_cofactor'), T(B + 'swap', B + 'swap!va
 
 INIT = [T(B + '_init_terminal', B + '_init_terminal!empty', variant='empty'), T(B + '__init__', B + '__init__!empty', variant='empty', args={'levels': 'none'}, calls={B + '_init_terminal': B + '_init_terminal!empty'})]
 
+ALET = [T(ABD + 'let', ABD + 'let:bool', variant='constants', args={'definitions': 'dict:name->bool'}, calls={B + 'let': B + 'let:bool'}),
+        T(ABD + 'let', ABD + 'let:name', variant='names', args={'definitions': 'dict:name->name'}, calls={B + 'let': B + 'let:name'})]
+
 TARGETS = {
     'C01': CORE + apply_targets(['not', 'and', 'or', 'xor', 'implies', 'equiv', 'diff', 'ite']) + AOPS
     + [T(ABD + 'ite')] + aapply_targets(['~', 'and', '\\/', '#', '=>', '<->', '-', 'ite']) + ARITY,
@@ -94,14 +97,14 @@ TARGETS = {
             T(B + 'compose', B + 'compose!body:several', variant='several-variables'),
             T(B + 'let', B + 'let:bool', variant='constants', args={'definitions': 'dict:name->bool'}),
             T(B + 'let', B + 'let:int', variant='functions', args={'definitions': 'dict:name->int'}),
-            T(B + 'let', B + 'let:name', variant='names', args={'definitions': 'dict:name->name'})],
+            T(B + 'let', B + 'let:name', variant='names', args={'definitions': 'dict:name->name'})] + ALET,
     'C05': list(CP_.TARGETS),
     'C06': [T(B + 'incref'), T(B + 'decref'), T(B + 'ref'), T(B + 'find_or_add')] + GC,
     'C07': SWAPV,
     'C08': HANDLES + [T(ABD + 'var'), T(ABD + 'ite'), T(ABD + 'quantify'), T(ABD + 'forall'), T(ABD + 'exist'), T(ABD + 'succ'),
                       T(AF + 'low'), T(AF + 'high')] + aapply_targets(['not', '&', 'ite', 'forall']) + AOPS[:7]
            + [T(B + '_init_terminal'), T(B + 'add_var')]   # declarations keep every count
-           + EXTREF + [T(B + '_add_int'), T(ABD + '__contains__')] + AWRAP,
+           + EXTREF + [T(B + '_add_int'), T(ABD + '__contains__')] + AWRAP + ALET,
     'C09': PLUMBING + [T(B + 'ite', B + 'ite!body'), T(B + 'var', B + 'var!body'), T(B + 'rename', B + 'rename!body'),
                        T('dd.bdd.copy_bdd', variant='two-managers'), T(ABD + 'find_or_add')] + IMAGE[2:],
     'C10': [T(B + 'is_essential'), T(B + '_support'), T(B + 'support', B + 'support!proved:names', variant='names'),
